@@ -256,7 +256,7 @@ def build(tier):
         Target('read_u32', [read_u32()], P),
         Target('read_u64', [read_u64()], P),
         Target('read_cast_i32_i64', [read_cast1(), read_i32()], P),
-        Target('read_cast_n', [read_castn(), read_cast1(), read_i32()], P, timeout=240),   # the hardest SAT instance (20 s alone): survives a loaded machine
+        Target('read_cast_n', [read_castn(), read_cast1(), read_i32()], P, timeout=300),   # the hardest SAT instance (20 s alone): survives a loaded machine
         Target('read_ptr_f64', [rd_ptr('read_ptr_f64', 'double')], P),
     ]
     NOCONV = ['--bounds-check', '--pointer-check', '--div-by-zero-check', '--signed-overflow-check', '--pointer-overflow-check']
@@ -295,7 +295,7 @@ def build(tier):
     for tag, scalar, rank in INST:
         pre = f'{D}tensor_{tag}_{rank}.h'
         deps = lambda: [read_u32(), read_u64(), read_castn(), read_cast1(), read_i32(), rd_ptr('read_ptr_' + tag, scalar), hash_version()]
-        targets.append(Target(f'tensor_read_{tag}_{rank}', [tensor_read('tensor_read', scalar, rank)] + deps(), pre, loops=0, unwind=NV_UNWIND, cbmc_flags=CADICAL, timeout=240))
+        targets.append(Target(f'tensor_read_{tag}_{rank}', [tensor_read('tensor_read', scalar, rank)] + deps(), pre, loops=0, unwind=NV_UNWIND, cbmc_flags=CADICAL, timeout=300))
         wdeps = [write_u32(), write_u64(), write_i32(), write_castn(), wr_ptr('write_ptr_' + tag, scalar), hash_version()]
         targets.append(Target(f'tensor_write_{tag}_{rank}', [tensor_write('tensor_write', scalar, rank)] + wdeps, pre, loops=0, unwind=NV_UNWIND, cbmc_flags=CADICAL))
         if rank <= 2:   # the obligations that pin the repair of the dims validation (they failed before 81b3596); rank 4 is covered by the main target
@@ -333,7 +333,7 @@ def build(tier):
             'in reader and writer (value(s), min, max, minLE, maxLE[, valueLE]); write(string_view): uint32 length + chars',
             'tensor writer (repair c547eaf): a dimension above INT32_MAX => failbit and nothing written; dims that fit are never refused by that guard; no precondition on the magnitude of dims',
             'lemma (SMT): dims that pass the reader\'s division guard have an exact product <= max_size and every running product fits int64 (ranks 1-4, sizeof 8 and 1)',
-            'tensor reader on back end B (specs/C15/guard.py; SMT over Int, the real body of nano::read(istream&, tensor_t&) for double rank 1/2/3 and int8 rank 1, thorough: + double rank 4, int64 rank 1, int8 rank 3; '
+            'tensor reader on back end B (specs/C15/guard.py; SMT over Int, the real body of nano::read(istream&, tensor_t&) for double rank 2/3 and int8 rank 1, thorough: + double rank 1/4, int64 rank 1, int8 rank 3; '
             'both dims loops executed exactly (constant bound trank; the early exit `&& !empty` of the overflow guard is followed path by path), products and quotients are the integers\' own): SOUNDNESS accepted => version / rank / sizeof(scalar) are the writer\'s, every dim >= 0, '
             'sizeof * prod(dims) fits int64, exactly header + sizeof * prod(dims) bytes consumed (all supplied), stored hash == hash(payload slice); ROUND TRIP accepted => dims[k] of the tensor is the dim of '
             'the stream and size() is their product FOR EVERY PRIOR CONTENT of the destination (any dims / size / block, also a moved-from object); COMPLETENESS (NON-EMPTY and EMPTY tensors, separate obligations) a valid header passes the guard '
@@ -341,7 +341,7 @@ def build(tier):
             'DEFINEDNESS every division by a header-derived value has a non-zero divisor, `total *= dims[i]` never overflows, no value-changing conversion; resize is reached at most once and only with validated '
             'dims, a rejected header leaves the tensor untouched; istream::read gets a non-negative count and a block of that many scalars',
             'parameter_t::read / write (src/parameter.cpp; specs/C15/paramrw.py, param_rw.h; variant storage as {index, a1..a6}, std::visit / switch extracted arm by arm): '
-            'parameter_roundtrip_alt0..6 (one target per alternative written) = the property itself on both real bodies inlined down to istream::read / ostream::write: for EVERY well-formed parameter p (any alternative) and EVERY prior content of the '
+            'parameter_roundtrip_alt<k> (one target per alternative written; quick tier: empty, enum, scalar pair range; thorough: all seven) = the property itself on both real bodies inlined down to istream::read / ostream::write: for EVERY well-formed parameter p (any alternative) and EVERY prior content of the '
             'destination q, write(p) then read(q) yields q == p -- same alternative (an empty parameter resets a used object), name, every member of the active record (doubles by bit pattern), enum value and domain, '
             'string value -- consumes exactly the bytes and as many fields as were written, and does not throw unless an allocation fails; '
             'parameter_read (any stream, any destination): failed stream => exception, normal return => stream good, unknown tag => exception, normal return => -1 <= tag <= 5 and the ACTIVE ALTERNATIVE IS THE ONE OF THE TAG '
